@@ -131,3 +131,12 @@ VARIANTS += [
          old="        return copy.deepcopy(\n            self._storage.get_study_system_attrs(self._study_id).get(_SYSTEM_ATTR_METRIC_NAMES)\n        )\n",
          new="        return self._storage.get_study_system_attrs(self._study_id).get(_SYSTEM_ATTR_METRIC_NAMES)\n"),
 ]
+
+VARIANTS += [
+    dict(id="c20-directions-uncopied", prop="C20", file=ST, expect="R20.2",
+         old="        return list(self._directions)\n", new="        return self._directions\n"),
+    dict(id="c20-neutral-directions-copy-copy", prop="C20", file=ST, expect=None,
+         old="        return list(self._directions)\n", new="        return copy.copy(self._directions)\n"),
+    dict(id="c20-bracket-study-drops-deepcopy", prop="C20", file="optuna/pruners/_hyperband.py", expect="R20.2",
+         old="                trials = super()._get_trials(deepcopy=deepcopy, states=states)\n", new="                trials = super()._get_trials(deepcopy=False, states=states)\n"),
+]
